@@ -1,5 +1,641 @@
-//! placeholder (to be implemented)
-pub fn cmd_run(_args: &[String]) -> i32 {
-    eprintln!("not implemented");
-    2
+//! `vh-driver c20 run <scripts.ndjson> <out.ndjson>` (see ../C20.md): scripts of `use_keyspace` calls, requests,
+//! connection kills, node restarts and node additions against the in-process mock cluster; for every user
+//! request the keyspace acknowledged on the connection that carried it is recorded. Record only.
+
+use std::collections::{BTreeMap, BTreeSet, HashMap, HashSet};
+use std::io::{BufRead, Write};
+use std::net::{Ipv4Addr, SocketAddr};
+use std::num::NonZeroUsize;
+use std::sync::{Arc, Mutex};
+use std::time::{Duration, Instant};
+
+use serde_json::{Value, json};
+
+use crate::mock::{Action, MockCluster, MockColumn, MockConfig, MockKeyspace, MockNodeCfg, MockTable, Reply, Request, type_bytes};
+
+const PORT: u16 = 19420;
+const SA_PORT: u16 = 19520;
+const MSB: u8 = 12;
+const SELECT_PREFIX: &str = "SELECT v FROM t WHERE pk = ";
+
+// ---------------------------------------------------------------------------------------------
+// Script
+// ---------------------------------------------------------------------------------------------
+
+#[derive(Clone, Debug)]
+struct Script {
+    id: Value,
+    shards: Vec<u16>,
+    per_shard: bool,
+    pool_n: usize,
+    use_delay_ms: u64,
+    steps: Vec<Value>,
+}
+
+fn node_ip(i: usize) -> Ipv4Addr {
+    Ipv4Addr::new(127, 0, 20, (i + 1) as u8)
+}
+
+fn host_id(i: usize) -> uuid::Uuid {
+    uuid::Uuid::from_u128((0xC20u128 << 64) | (i as u128 + 1))
+}
+
+/// Four distinct tokens per node, interleaved over the ring; distinct for up to 16 nodes.
+fn node_tokens(i: usize) -> Vec<i64> {
+    (0..4i64).map(|j| ((j * 16 + i as i64) << 57).wrapping_add(i64::MIN)).collect()
+}
+
+fn parse_script(v: &Value) -> Result<Script, String> {
+    let mut shards = Vec::new();
+    for n in v["nodes"].as_array().ok_or("nodes missing")? {
+        shards.push(n["shards"].as_u64().ok_or("node shards missing")? as u16);
+    }
+    if shards.is_empty() || shards.len() > 8 {
+        return Err("bad number of nodes".into());
+    }
+    let steps = v["steps"].as_array().ok_or("steps missing")?.clone();
+    let mut nodes_now = shards.len();
+    for s in &steps {
+        let need_ks = |s: &Value| s["ks"].as_str().map(|_| ()).ok_or("step without ks");
+        let need_n = |s: &Value| s["n"].as_u64().map(|_| ()).ok_or("step without n");
+        match s["op"].as_str() {
+            Some("use") => need_ks(s)?,
+            Some("req") => need_n(s)?,
+            Some("use_and_req") => {
+                need_ks(s)?;
+                need_n(s)?
+            }
+            Some("kill") => {
+                let i = s["node"].as_u64().ok_or("kill without node")? as usize;
+                if i >= nodes_now {
+                    return Err(format!("kill: node {i} does not exist at that point"));
+                }
+                if !matches!(s["which"].as_str(), Some("all") | Some("one")) {
+                    return Err("kill: which must be all or one".into());
+                }
+            }
+            Some("restart") => {
+                let i = s["node"].as_u64().ok_or("restart without node")? as usize;
+                if i >= nodes_now {
+                    return Err(format!("restart: node {i} does not exist at that point"));
+                }
+            }
+            Some("add_node") => {
+                nodes_now += 1;
+                if nodes_now > 16 {
+                    return Err("too many add_node steps".into());
+                }
+            }
+            Some("sleep") => {
+                s["ms"].as_u64().ok_or("sleep without ms")?;
+            }
+            Some("name") => {
+                s["name"].as_str().ok_or("name step without name")?;
+            }
+            other => return Err(format!("unknown op {other:?}")),
+        }
+    }
+    Ok(Script {
+        id: v["id"].clone(),
+        shards,
+        per_shard: match v["pool"]["kind"].as_str() {
+            Some("per_shard") => true,
+            Some("per_host") => false,
+            other => return Err(format!("unknown pool kind {other:?}")),
+        },
+        pool_n: v["pool"]["n"].as_u64().filter(|n| *n > 0).ok_or("pool n missing or 0")? as usize,
+        use_delay_ms: v["use_delay_ms"].as_u64().unwrap_or(0),
+        steps,
+    })
+}
+
+fn node_cfg(i: usize, shards: u16) -> MockNodeCfg {
+    MockNodeCfg {
+        ip: node_ip(i),
+        host_id: host_id(i),
+        dc: "dc1".into(),
+        rack: "r1".into(),
+        tokens: node_tokens(i),
+        nr_shards: if shards == 0 { None } else { Some(shards) },
+        msb_ignore: MSB,
+        metadata_id_ext: false,
+        tablets_ext: false,
+        lwt_mark: false,
+    }
+}
+
+fn mock_config(sc: &Script) -> MockConfig {
+    let ks = |name: &str| MockKeyspace {
+        name: name.into(),
+        replication: vec![("class".to_string(), "org.apache.cassandra.locator.SimpleStrategy".to_string()), ("replication_factor".to_string(), "1".to_string())],
+        tablets: false,
+        tables: vec![MockTable {
+            name: "t".into(),
+            columns: vec![
+                MockColumn { name: "pk".into(), kind: "partition_key".into(), position: 0, typ: "int".into() },
+                MockColumn { name: "v".into(), kind: "regular".into(), position: -1, typ: "int".into() },
+            ],
+            partitioner: Some("org.apache.cassandra.dht.Murmur3Partitioner".into()),
+        }],
+    };
+    MockConfig {
+        port: PORT,
+        shard_aware_port: Some(SA_PORT),
+        nodes: sc.shards.iter().enumerate().map(|(i, s)| node_cfg(i, *s)).collect(),
+        keyspaces: vec![ks("ks1"), ks("ks2"), ks("ks3")],
+        system_page_size_override: None,
+    }
+}
+
+// ---------------------------------------------------------------------------------------------
+// Handler
+// ---------------------------------------------------------------------------------------------
+
+fn is_use(text: &str) -> bool {
+    let t = text.trim_start();
+    t.len() >= 4 && t[..3].eq_ignore_ascii_case("use") && t.as_bytes()[3].is_ascii_whitespace()
+}
+
+/// `USE <name>` -> the name the server acknowledges: quoted names verbatim (quotes stripped), unquoted
+/// names lowercased (what a CQL server does).
+fn use_name(text: &str) -> String {
+    let t = text.trim().trim_end_matches(';').trim();
+    let name = t[3.min(t.len())..].trim();
+    if name.len() >= 2 && name.starts_with('"') && name.ends_with('"') { name[1..name.len() - 1].to_string() } else { name.to_ascii_lowercase() }
+}
+
+fn make_handler(use_delay_ms: u64) -> crate::mock::Handler {
+    let int = type_bytes("int").expect("type int");
+    Arc::new(move |req: &Request| -> Action {
+        if req.opcode != 0x07 {
+            return Action::Reply(Reply::Void);
+        }
+        let text = req.query.as_deref().unwrap_or("");
+        if is_use(text) {
+            // The mock remembers the keyspace for the connection when this SetKeyspace answer is written,
+            // i.e. after the delay.
+            let reply = Action::Reply(Reply::SetKeyspace(use_name(text)));
+            return if use_delay_ms == 0 { reply } else { Action::DelayMs(use_delay_ms, Box::new(reply)) };
+        }
+        if let Some(uid) = text.strip_prefix(SELECT_PREFIX).and_then(|r| r.trim().parse::<i32>().ok()) {
+            return Action::Reply(Reply::Rows {
+                cols: vec![("v".to_string(), int.clone())],
+                ks: req.keyspace_at_arrival.clone().unwrap_or_else(|| "ks1".to_string()),
+                table: "t".into(),
+                rows: vec![vec![Some(uid.to_be_bytes().to_vec())]],
+                paging_state: None,
+                no_metadata: false,
+                new_metadata_id: None,
+            });
+        }
+        Action::Reply(Reply::Void)
+    })
+}
+
+// ---------------------------------------------------------------------------------------------
+// Bookkeeping of use calls vs. requests
+// ---------------------------------------------------------------------------------------------
+
+#[derive(Default)]
+struct Tracker {
+    /// use calls started and not yet returned
+    uses_in_flight: BTreeSet<usize>,
+    /// index of the last use call that returned Ok (0 = none)
+    last_ok: usize,
+    /// requests issued and not yet completed -> use calls seen in flight since the request was issued
+    reqs_in_flight: HashMap<u64, BTreeSet<usize>>,
+}
+
+impl Tracker {
+    fn use_start(&mut self, j: usize) {
+        self.uses_in_flight.insert(j);
+        for s in self.reqs_in_flight.values_mut() {
+            s.insert(j);
+        }
+    }
+    fn use_end(&mut self, j: usize, ok: bool) {
+        self.uses_in_flight.remove(&j);
+        if ok {
+            self.last_ok = j;
+        }
+    }
+    fn req_issue(&mut self, uid: u64) -> usize {
+        self.reqs_in_flight.insert(uid, self.uses_in_flight.clone());
+        self.last_ok
+    }
+    fn req_done(&mut self, uid: u64) -> Vec<usize> {
+        self.reqs_in_flight.remove(&uid).map(|s| s.into_iter().collect()).unwrap_or_default()
+    }
+}
+
+struct ReqRes {
+    uid: u64,
+    ok: bool,
+    err: String,
+    issued_after_use: usize,
+    concurrent_use: Vec<usize>,
+}
+
+struct UseRes {
+    ok: bool,
+    err: String,
+    bad_name: bool,
+}
+
+impl UseRes {
+    fn json(&self) -> Value {
+        json!({"ok": self.ok as u8, "err": self.err, "err_kind": if self.ok { "" } else if self.bad_name { "bad_name" } else { "other" }})
+    }
+}
+
+fn use_res(r: Result<(), scylla::errors::UseKeyspaceError>) -> UseRes {
+    match r {
+        Ok(()) => UseRes { ok: true, err: String::new(), bad_name: false },
+        Err(e) => UseRes { ok: false, err: format!("{e}"), bad_name: format!("{e:?}").contains("BadKeyspaceName") },
+    }
+}
+
+async fn one_req(session: &scylla::client::session::Session, tr: &Mutex<Tracker>, uid: u64) -> ReqRes {
+    let text = format!("{SELECT_PREFIX}{uid}");
+    // "Issued" = the bookkeeping state right before query_unpaged is called and first polled.
+    let issued_after_use = tr.lock().unwrap().req_issue(uid);
+    let r = session.query_unpaged(text, ()).await;
+    let concurrent_use = tr.lock().unwrap().req_done(uid);
+    let (ok, err) = match r {
+        Ok(_) => (true, String::new()),
+        Err(e) => (false, format!("{e}")),
+    };
+    ReqRes { uid, ok, err, issued_after_use, concurrent_use }
+}
+
+async fn one_use(session: &scylla::client::session::Session, tr: &Mutex<Tracker>, j: usize, ks: &str) -> UseRes {
+    tr.lock().unwrap().use_start(j);
+    let r = use_res(session.use_keyspace(ks, false).await);
+    tr.lock().unwrap().use_end(j, r.ok);
+    r
+}
+
+// ---------------------------------------------------------------------------------------------
+// One script
+// ---------------------------------------------------------------------------------------------
+
+fn shard_json(v: &Value) -> Value {
+    if v.is_null() { json!(-1) } else { v.clone() }
+}
+
+fn ks_json(v: &Value) -> Value {
+    match v.as_str() {
+        Some(s) => json!(s),
+        None => json!("none"),
+    }
+}
+
+/// Connection ids that sent a REGISTER frame (= control connections; they never carry user requests).
+fn control_conns(log: &[Value]) -> HashSet<u64> {
+    log.iter().filter(|e| e["dir"] == "in" && e["opcode"] == 0x0B).filter_map(|e| e["conn"].as_u64()).collect()
+}
+
+fn pool_full(sc: &Script, node: usize, conns: &[(u64, Option<u16>, u16)], control: &HashSet<u64>) -> bool {
+    let shards = sc.shards[node];
+    let pool: Vec<Option<u16>> = conns.iter().filter(|(id, _, _)| !control.contains(id)).map(|(_, s, _)| *s).collect();
+    if shards > 0 && sc.per_shard { (0..shards).all(|s| pool.iter().filter(|x| **x == Some(s)).count() >= sc.pool_n) } else { pool.len() >= sc.pool_n }
+}
+
+/// True iff some USE query was received on a still open connection and not answered yet.
+fn use_outstanding(log: &[Value]) -> bool {
+    let mut pending: HashSet<(u64, i64)> = HashSet::new();
+    for e in log {
+        let Some(c) = e["conn"].as_u64() else { continue };
+        if e["ev"] == "close" {
+            pending.retain(|(pc, _)| *pc != c);
+        } else if e["dir"] == "in" && e["opcode"] == 0x07 && e["query"].as_str().is_some_and(is_use) {
+            pending.insert((c, e["stream"].as_i64().unwrap_or(0)));
+        } else if e["dir"] == "out" {
+            pending.remove(&(c, e["stream"].as_i64().unwrap_or(0)));
+        }
+    }
+    !pending.is_empty()
+}
+
+fn empty_output(id: &Value, err: String) -> Value {
+    json!({"id": id, "start_err": err, "steps": [], "uses": [], "final_conns": []})
+}
+
+async fn run_script(sc: &Script) -> Value {
+    // Ports are reused from the previous script: retry binding for up to 3 s.
+    let t0 = Instant::now();
+    let mock = loop {
+        match MockCluster::try_start(mock_config(sc), make_handler(sc.use_delay_ms)).await {
+            Ok(m) => break m,
+            Err(_) if t0.elapsed() < Duration::from_secs(3) => tokio::time::sleep(Duration::from_millis(50)).await,
+            Err(e) => return empty_output(&sc.id, format!("mock start: {e}")),
+        }
+    };
+    mock.set_intercept_use(true);
+    let out = run_with_mock(sc, &mock).await;
+    mock.shutdown().await;
+    out
+}
+
+async fn start_node_retrying(mock: &MockCluster, i: usize) -> Result<(), String> {
+    let t0 = Instant::now();
+    loop {
+        match mock.try_start_node(i).await {
+            Ok(()) => return Ok(()),
+            Err(_) if t0.elapsed() < Duration::from_secs(3) => tokio::time::sleep(Duration::from_millis(20)).await,
+            Err(e) => return Err(format!("{e}")),
+        }
+    }
+}
+
+struct StepOut {
+    step: Value,
+    use_: Option<UseRes>,
+    reqs: Vec<ReqRes>,
+    use_frames: Vec<Value>,
+}
+
+async fn run_with_mock(sc: &Script, mock: &MockCluster) -> Value {
+    use scylla::client::PoolSize;
+    use scylla::client::execution_profile::ExecutionProfile;
+    use scylla::client::session_builder::SessionBuilder;
+
+    let verbose = std::env::var("C20_VERBOSE").is_ok();
+    let profile = ExecutionProfile::builder().request_timeout(Some(Duration::from_secs(3))).speculative_execution_policy(None).build();
+    let n = NonZeroUsize::new(sc.pool_n).expect("pool n > 0");
+    let session = match SessionBuilder::new()
+        .known_node(mock.contact_point(0))
+        .pool_size(if sc.per_shard { PoolSize::PerShard(n) } else { PoolSize::PerHost(n) })
+        .default_execution_profile_handle(profile.into_handle())
+        .build()
+        .await
+    {
+        Ok(s) => s,
+        Err(e) => return empty_output(&sc.id, format!("session build: {e}")),
+    };
+
+    // Wait until the pools of the initial nodes are full (at most 5 s).
+    let t0 = Instant::now();
+    let full = || {
+        let control = control_conns(&mock.log());
+        (0..sc.shards.len()).all(|i| pool_full(sc, i, &mock.open_connections(i), &control))
+    };
+    while !full() && t0.elapsed() < Duration::from_secs(5) {
+        tokio::time::sleep(Duration::from_millis(10)).await;
+    }
+    if verbose {
+        eprintln!("c20: script {}: pools full = {} after {} ms", sc.id, full(), t0.elapsed().as_millis());
+    }
+
+    let tracker = Mutex::new(Tracker::default());
+    let mut next_uid: u64 = 1;
+    let mut next_use: usize = 1;
+    let mut uses: Vec<Value> = Vec::new();
+    let mut steps_out: Vec<StepOut> = Vec::new();
+    // Log position up to which USE frames have been attributed to a step (the slices are contiguous).
+    let mut log_pos: usize = 0;
+    let mut harness_err = String::new();
+
+    for step in &sc.steps {
+        let mut so = StepOut { step: step.clone(), use_: None, reqs: Vec::new(), use_frames: Vec::new() };
+        let mut take_uids = |k: u64| -> Vec<u64> {
+            let v: Vec<u64> = (next_uid..next_uid + k).collect();
+            next_uid += k;
+            v
+        };
+        match step["op"].as_str().unwrap_or("") {
+            "use" => {
+                let ks = step["ks"].as_str().unwrap_or("");
+                let j = next_use;
+                next_use += 1;
+                let r = one_use(&session, &tracker, j, ks).await;
+                uses.push(json!({"index": j, "ks": ks, "ok": r.ok as u8}));
+                so.use_ = Some(r);
+            }
+            "req" => {
+                let uids = take_uids(step["n"].as_u64().unwrap_or(0));
+                so.reqs = futures::future::join_all(uids.iter().map(|u| one_req(&session, &tracker, *u))).await;
+            }
+            "use_and_req" => {
+                let ks = step["ks"].as_str().unwrap_or("");
+                let j = next_use;
+                next_use += 1;
+                let uids = take_uids(step["n"].as_u64().unwrap_or(0));
+                // The use call is polled first (it starts), then the requests, all from this task; nothing is
+                // awaited in between.
+                let (r, reqs) = tokio::join!(one_use(&session, &tracker, j, ks), futures::future::join_all(uids.iter().map(|u| one_req(&session, &tracker, *u))));
+                uses.push(json!({"index": j, "ks": ks, "ok": r.ok as u8}));
+                so.use_ = Some(r);
+                so.reqs = reqs;
+            }
+            "kill" => {
+                let node = step["node"].as_u64().unwrap_or(0) as usize;
+                let rst = step["rst"].as_u64().unwrap_or(0) != 0;
+                let killed = if step["which"] == "all" {
+                    mock.kill_connections(node, &|_, _| true, rst)
+                } else {
+                    let control = control_conns(&mock.log());
+                    match mock.open_connections(node).iter().map(|(id, _, _)| *id).find(|id| !control.contains(id)) {
+                        Some(victim) => mock.kill_connections(node, &|id, _| id == victim, rst),
+                        None => 0,
+                    }
+                };
+                if verbose {
+                    eprintln!("c20: script {}: kill {step}: {killed} connection(s)", sc.id);
+                }
+            }
+            "restart" => {
+                let node = step["node"].as_u64().unwrap_or(0) as usize;
+                mock.stop_node(node).await;
+                tokio::time::sleep(Duration::from_millis(100)).await;
+                if let Err(e) = start_node_retrying(mock, node).await {
+                    harness_err = format!("restart node {node}: {e}");
+                }
+            }
+            "add_node" => {
+                let mut cfg = mock.config();
+                let k = cfg.nodes.len();
+                cfg.nodes.push(node_cfg(k, sc.shards[0]));
+                mock.set_config(cfg);
+                match start_node_retrying(mock, k).await {
+                    Ok(()) => {
+                        // The event reaches only connections that REGISTERed; if the control connection has just
+                        // been killed there is none for a moment: retry for at most 2 s so that the step is not moot.
+                        let t0 = Instant::now();
+                        let reached = loop {
+                            let r = mock.send_event("TOPOLOGY_CHANGE", "NEW_NODE", SocketAddr::from((node_ip(k), PORT)));
+                            if r > 0 || t0.elapsed() >= Duration::from_secs(2) {
+                                break r;
+                            }
+                            tokio::time::sleep(Duration::from_millis(10)).await;
+                        };
+                        if verbose {
+                            eprintln!("c20: script {}: add_node {k} ({}): NEW_NODE sent to {reached} connection(s)", sc.id, node_ip(k));
+                        }
+                    }
+                    Err(e) => harness_err = format!("add_node {k}: {e}"),
+                }
+            }
+            "sleep" => tokio::time::sleep(Duration::from_millis(step["ms"].as_u64().unwrap_or(0))).await,
+            "name" => {
+                let name = step["name"].as_str().unwrap_or("");
+                let case_sensitive = step["cs"].as_u64().map(|c| c != 0).unwrap_or(true);
+                so.use_ = Some(use_res(session.use_keyspace(name, case_sensitive).await));
+            }
+            _ => {}
+        }
+        let log = mock.log();
+        so.use_frames = log[log_pos.min(log.len())..]
+            .iter()
+            .filter(|e| e["dir"] == "in" && e["opcode"] == 0x07 && e["query"].as_str().is_some_and(is_use))
+            .map(|e| json!({"seq": e["seq"], "node": e["node"], "conn": e["conn"], "text": e["query"]}))
+            .collect();
+        log_pos = log.len();
+        steps_out.push(so);
+        if !harness_err.is_empty() {
+            break;
+        }
+    }
+
+    // Final state. USE queries the mock has received but (because of use_delay_ms) not yet answered are allowed to
+    // complete first (at most 1 s), so that `final_conns` is not a snapshot of a half-acknowledged USE.
+    let t0 = Instant::now();
+    while use_outstanding(&mock.log()) && t0.elapsed() < Duration::from_secs(1) {
+        tokio::time::sleep(Duration::from_millis(10)).await;
+    }
+    let log = mock.log();
+    // USE queries that arrived during that wait count for the last step.
+    if let Some(last) = steps_out.last_mut() {
+        last.use_frames.extend(
+            log[log_pos.min(log.len())..]
+                .iter()
+                .filter(|e| e["dir"] == "in" && e["opcode"] == 0x07 && e["query"].as_str().is_some_and(is_use))
+                .map(|e| json!({"seq": e["seq"], "node": e["node"], "conn": e["conn"], "text": e["query"]})),
+        );
+    }
+    let control = control_conns(&log);
+    let mut last_ks: HashMap<u64, Value> = HashMap::new();
+    let mut frames: BTreeMap<u64, Vec<Value>> = BTreeMap::new();
+    for e in &log {
+        if e["dir"].is_string()
+            && let Some(c) = e["conn"].as_u64()
+        {
+            last_ks.insert(c, ks_json(&e["ks"]));
+        }
+        if e["dir"] == "in"
+            && e["opcode"] == 0x07
+            && let Some(uid) = e["query"].as_str().and_then(|q| q.strip_prefix(SELECT_PREFIX)).and_then(|r| r.trim().parse::<u64>().ok())
+        {
+            frames.entry(uid).or_default().push(json!({"seq": e["seq"], "node": e["node"], "conn": e["conn"], "shard": shard_json(&e["shard"]), "ks": ks_json(&e["ks"])}));
+        }
+    }
+    let nodes_now = mock.config().nodes.len();
+    let mut final_conns = Vec::new();
+    for i in 0..nodes_now {
+        for (id, shard, _) in mock.open_connections(i) {
+            if !control.contains(&id) {
+                final_conns.push(json!({"node": i, "conn": id, "shard": shard.map(|s| s as i64).unwrap_or(-1), "ks": last_ks.get(&id).cloned().unwrap_or(json!("none"))}));
+            }
+        }
+    }
+    if verbose {
+        for i in 0..nodes_now {
+            let accepted = log.iter().filter(|e| e["ev"] == "accept" && e["node"] == i).count();
+            eprintln!("c20: script {}: node {i}: {accepted} connection(s) accepted in total, {} open at the end", sc.id, mock.open_connection_count(i));
+        }
+    }
+    drop(session);
+
+    let steps: Vec<Value> = steps_out
+        .into_iter()
+        .map(|so| {
+            let reqs: Vec<Value> = so
+                .reqs
+                .iter()
+                .map(|r| {
+                    json!({"uid": r.uid, "ok": r.ok as u8, "err": r.err, "issued_after_use": r.issued_after_use, "concurrent_use": r.concurrent_use,
+                           "frames": frames.get(&r.uid).cloned().unwrap_or_default()})
+                })
+                .collect();
+            json!({"step": so.step, "use": so.use_.map(|u| u.json()).unwrap_or(json!("none")), "reqs": reqs, "use_frames": so.use_frames})
+        })
+        .collect();
+    json!({"id": sc.id, "start_err": harness_err, "steps": steps, "uses": uses, "final_conns": final_conns})
+}
+
+// ---------------------------------------------------------------------------------------------
+// Command
+// ---------------------------------------------------------------------------------------------
+
+pub fn cmd_run(args: &[String]) -> i32 {
+    if args.len() < 2 {
+        eprintln!("usage: vh-driver c20 run <scripts.ndjson> <out.ndjson>");
+        return 2;
+    }
+    let inp = match std::fs::File::open(&args[0]) {
+        Ok(f) => f,
+        Err(e) => {
+            eprintln!("c20: cannot open {}: {e}", args[0]);
+            return 2;
+        }
+    };
+    let mut out = match std::fs::File::create(&args[1]) {
+        Ok(f) => std::io::BufWriter::new(f),
+        Err(e) => {
+            eprintln!("c20: cannot create {}: {e}", args[1]);
+            return 2;
+        }
+    };
+    let verbose = std::env::var("C20_VERBOSE").is_ok();
+    let (mut lines, mut errors) = (0u64, 0u64);
+    for line in std::io::BufReader::new(inp).lines() {
+        let line = match line {
+            Ok(l) => l,
+            Err(e) => {
+                eprintln!("c20: read error: {e}");
+                return 2;
+            }
+        };
+        if line.trim().is_empty() {
+            continue;
+        }
+        let t0 = Instant::now();
+        let id_of = |v: &Value| if v["id"].is_null() { json!(-1) } else { v["id"].clone() };
+        let result = match serde_json::from_str::<Value>(&line) {
+            Err(e) => empty_output(&json!(-1), format!("bad script line: {e}")),
+            Ok(v) => match parse_script(&v) {
+                Err(e) => empty_output(&id_of(&v), format!("bad script: {e}")),
+                Ok(mut sc) => {
+                    sc.id = id_of(&v);
+                    // A fresh runtime per script: dropping it kills every task of the Session and of the mock,
+                    // so nothing of this script can talk to the next one's listeners.
+                    let rt = tokio::runtime::Builder::new_multi_thread().worker_threads(2).enable_all().build().expect("tokio runtime");
+                    let r = std::panic::catch_unwind(std::panic::AssertUnwindSafe(|| rt.block_on(async { tokio::time::timeout(Duration::from_secs(120), run_script(&sc)).await })));
+                    rt.shutdown_timeout(Duration::from_secs(2));
+                    match r {
+                        Ok(Ok(v)) => v,
+                        Ok(Err(_)) => empty_output(&sc.id, "script timed out after 120 s".into()),
+                        Err(_) => empty_output(&sc.id, format!("panic: {}", crate::last_panic())),
+                    }
+                }
+            },
+        };
+        if result["start_err"] != "" {
+            errors += 1;
+        }
+        if verbose {
+            eprintln!("c20: script {} took {} ms", result["id"], t0.elapsed().as_millis());
+        }
+        if writeln!(out, "{result}").is_err() {
+            eprintln!("c20: write error");
+            return 2;
+        }
+        lines += 1;
+    }
+    if out.flush().is_err() {
+        eprintln!("c20: write error");
+        return 2;
+    }
+    println!("{}", json!({"cmd": "c20", "lines": lines, "errors": errors}));
+    0
 }
